@@ -41,11 +41,15 @@ const c02Setup = `(do
   (def p12 (vec (rest (rest (rest '(1 2 3))))))
   (def p13 ((fn [& more] (vec more))))
   (def p14 (hash-set "a" "b" "c"))
+  (def p15 '(do (cond false 1 true 2)))
+  (def p16 '(let [a 1] (or nil a)))
+  (def p17 (fn [x] (cond x 1 true 2)))
+  (def p18 (fn [x] (do (+ x 1) (-> x (+ 1) (* 2)))))
   (defmacro m-conj (fn [xs y] (list 'conj xs y)))
   (defmacro m-splice (fn [xs ys] (list 'concat xs ys)))
   nil)`
 
-var c02SeedTypes = []string{"vec", "vec", "list", "vec", "map", "set", "list", "vec", "vec", "list", "vec2", "map2", "vec", "vec", "set"}
+var c02SeedTypes = []string{"vec", "vec", "list", "vec", "map", "set", "list", "vec", "vec", "list", "vec2", "map2", "vec", "vec", "set", "code", "code", "fn", "fn"}
 
 type strTable struct{ K, V []string }
 
@@ -83,11 +87,12 @@ type c02Val struct {
 }
 
 type c02Op struct {
-	Name string // pool name defined by this op
-	Kind string
-	Src  string
-	ast  types.MalType
-	val  *c02Val
+	ExpectEqual string // the result must be equal to the snapshot of this pool value ("" = no expectation)
+	Name        string // pool name defined by this op
+	Kind        string
+	Src         string
+	ast         types.MalType
+	val         *c02Val
 }
 
 // snap! records the canonical print of its argument; within one operation each snapshot must start
@@ -129,6 +134,9 @@ func c02Builtin(kind string) string {
 		return "conj"
 	case "concat", "concat3", "apply-concat", "qq-splice", "qq-splice2", "qq-vec", "macro-splice":
 		return "concat"
+	}
+	if kind == "captured-binding" {
+		return "closure-sees-a-changed-binding"
 	}
 	return kind
 }
@@ -178,8 +186,14 @@ func (w *c02World) threadFn(ti int) func(*Task) {
 			res, err := lisp.EVAL(w.ctxs[ti], op.ast, w.env)
 			recRet(w.s, op.Name, nil, err, false)
 			if err == nil {
-				w.snap.Set(op.Name, canonValQuiet(res))
+				got := canonValQuiet(res)
+				w.snap.Set(op.Name, got)
 				w.origin.Set(op.Name, op.Kind)
+				if op.ExpectEqual != "" {
+					if want, ok := w.snap.Get(op.ExpectEqual); ok && got != want && got != ":err" {
+						w.noteMut(op.ExpectEqual, want, got, op.Src, "captured-binding", op)
+					}
+				}
 			}
 			w.inspect(op)
 		}
@@ -228,13 +242,16 @@ func (g *c02Gen) next(prefix string) *c02Op {
 		"apply-conj", "apply-concat", "map", "qq-splice", "qq-splice2", "qq-vec", "closure-conj", "macro-conj", "macro-splice",
 		"concat-empty-head", "concat-empty-head2", "apply-concat-empty-head", "update-in-vec", "assoc-in-vec", "update-in-mixed", "assoc-in-mixed", "update-vec",
 		"map-rest-retain", "apply-rest-retain", "reduce-rest-retain",
-		"drain-vec", "drain-rest", "rest-param-vec", "dissoc-multi", "dissoc-multi-set", "dissoc-multi-present", "catch-poolname", "let-shadow-poolname"}
+		"drain-vec", "drain-rest", "rest-param-vec", "dissoc-multi", "dissoc-multi-set", "dissoc-multi-present", "catch-poolname", "let-shadow-poolname",
+		"eval-code", "call-fn-value", "let-shadow-closure", "let-shadow-closure-fn", "conj-set-multi"}
 	weights := []int{8, 3, 2, 6, 2, 5, 2, 2, 2, 2, 1, 1, 1, 3, 3, 2, 1, 1, 1, 1, 1, 1, 2, 1, 1, 2, 3, 2, 1, 4, 3, 2, 2, 2, 2,
 		3, 2, 2, 3, 2, 2, 2, 2,
 		2, 1, 1,
-		3, 2, 2, 3, 2, 1, 2, 1}
+		3, 2, 2, 3, 2, 1, 2, 1,
+		2, 2, 3, 1, 1}
 	kind := kinds[g.tp.Weighted(LaneWork, weights)]
 	var src, typ string
+	expectParent := ""
 	var parents []*c02Val
 	seq := func() *c02Val { v := g.pick("vec", "list"); parents = append(parents, v); return v }
 	vec := func() *c02Val { v := g.pick("vec"); parents = append(parents, v); return v }
@@ -366,6 +383,30 @@ func (g *c02Gen) next(prefix string) *c02Op {
 		v := g.pick("vec", "list", "map")
 		parents = append(parents, v)
 		src, typ = "(let ["+v.Name+" (list "+k+")] (conj "+v.Name+" 1))", "list"
+	case "eval-code":
+		// code held as data is evaluated: macro expansion must not rewrite the stored form
+		v := g.pick("code")
+		parents = append(parents, v)
+		src, typ = "(eval "+v.Name+")", "other"
+	case "call-fn-value":
+		v := g.pick("fn")
+		parents = append(parents, v)
+		src, typ = "("+v.Name+" "+k+")", "other"
+	case "let-shadow-closure":
+		// a closure captured x; an inner let shadows x and then calls the closure: it must still see the outer value
+		v := g.pick("vec")
+		parents = append(parents, v)
+		src, typ = "(let [x "+v.Name+" g (fn [] x)] (let [x (conj x "+k+")] (g)))", "vec"
+		expectParent = v.Name
+	case "let-shadow-closure-fn":
+		v := g.pick("vec", "list")
+		parents = append(parents, v)
+		src, typ = "((fn [x] (let [g (fn [] x)] (let [x (cons "+k+" x)] (g)))) "+v.Name+")", v.Type
+		expectParent = v.Name
+	case "conj-set-multi":
+		v := g.pick("set")
+		parents = append(parents, v)
+		src, typ = "(conj "+v.Name+" \"s"+k+"\" \"t"+k+"\")", "set"
 	case "map-rest-retain":
 		// the rest list of a variadic callback is kept while map goes on: what was stored must not change
 		src, typ = "(let [acc (atom [])] (map (fn [& xs] (do (swap! acc conj xs) (snap! @acc) xs)) "+seq().Name+"))", "list"
@@ -384,7 +425,7 @@ func (g *c02Gen) next(prefix string) *c02Op {
 		g.last = parents[0]
 	}
 	full := "(def " + name + " (try " + src + " (catch zz :err)))"
-	return &c02Op{Name: name, Kind: kind, Src: full, ast: mustRead(full), val: v}
+	return &c02Op{Name: name, Kind: kind, Src: full, ast: mustRead(full), val: v, ExpectEqual: expectParent}
 }
 
 func (c02) Run(tp *Tape, opt RunOpt) *RunOut {
@@ -487,10 +528,15 @@ func (c02) Run(tp *Tape, opt RunOpt) *RunOut {
 		if w.mutOp != nil && w.isAncestor(w.mutName, w.mutOp.val, 0) {
 			rel = "changes-the-value-it-was-derived-from"
 		}
+		sig := form + ":" + c02Builtin(w.mutByKind) + "-" + rel
 		if form == "concurrent" {
-			rel = "changes-another-value"
+			// which thread's operation did it is not known here: one signature for the concurrent form
+			sig = "concurrent:a-bound-value-changed"
+			if w.mutByKind == "captured-binding" {
+				sig = "concurrent:closure-sees-a-changed-binding"
+			}
 		}
-		out.Violations = append(out.Violations, Violation{"C02.mutated", form + ":" + c02Builtin(w.mutByKind) + "-" + rel,
+		out.Violations = append(out.Violations, Violation{"C02.mutated", sig,
 			"the value bound to " + w.mutName + " (made by " + orig + ") changed from\n    " + w.mutWas + "\n  to\n    " + w.mutNow + "\n  noticed after: " + w.mutBy + "\n  (" + strconv.Itoa(w.nMut) + " value change(s) in this run)"})
 	}
 	out.Stats["form:threads="+strconv.Itoa(nThreads)]++
